@@ -275,6 +275,16 @@ pub fn mutants(b: &Base, other: &Base, full: bool, rng: &mut Rng, extra_random: 
             }
         }
     }
+    // 4c. white space and invisible characters glued to either end of the token (all layers)
+    for ws in ["\n", " ", "\r\n", "\t", "\u{a0}", "\u{2028}", "\u{3000}", "\u{feff}", "\u{200b}", "  "] {
+        push(format!("{}{}", b.token, ws), "whitespace-appended", "structure", None);
+        push(format!("{}{}", ws, b.token), "whitespace-prepended", "structure", None);
+        push(format!("{}{}{}", ws, b.token, ws), "whitespace-around", "structure", None);
+    }
+    // 4d. extra segments (a fifth, sixth ... segment after the footer / after an empty footer)
+    for tail in [".", "..", ".A", "..A", ".AAAA.AAAA", "...."] {
+        push(format!("{}{}", b.token, tail), "extra-segments", "structure", None);
+    }
     // 5. delete / insert bytes at the field boundaries of the decoded payload
     {
         let mut cuts = vec![0usize, n];
@@ -421,7 +431,9 @@ fn tolerated(b: &Base, m: &Mutant) -> Option<&'static str> {
     if m.supply_footer.is_some() {
         return None;
     }
-    if m.token == format!("{}.", b.token) || b.token == format!("{}.", m.token) {
+    // an added / removed EMPTY footer segment: only between a 3-segment token and the same token plus one trailing '.'
+    let segs = |t: &str| t.split('.').count();
+    if (m.token == format!("{}.", b.token) && segs(&b.token) == 3) || (b.token == format!("{}.", m.token) && segs(&m.token) == 3) {
         return Some("empty-footer-segment");
     }
     if !b.p.is_local() {
@@ -454,7 +466,7 @@ fn validator_cfg(b: &Base, supply: &Option<Option<String>>, default_parser: bool
         expected: vec![],
         validators: vec![VSpec { claim: Claim::Custom("k".into(), json!(1)), behave: VBehave::Accept, reg: VReg::ValidateClaim }],
         default_parser,
-        expected_via_extend: false,
+        ..Default::default()
     }
 }
 
